@@ -1049,13 +1049,17 @@ def check_importer(ctx, model, prop, parser=None):
     # how is the table used?  op_constructor(self.rec(left), self.rec(right))
     owner, fn = model.require_method(f"{IAST}:ASTToPymbolic", "map_BinOp")
     order_ok = False
+    n_ret = 0
     for ps in summarize(fn):
         if ps.term == "return":
             rv = ps.retval
-            if rv[0] == "call" and rv[2] == (
+            n_ret += 1
+            if isinstance(rv, tuple) and rv[0] == "call" and rv[2] == (
                     ("rec", ("attr", NODE, "left"), True, ()),
                     ("rec", ("attr", NODE, "right"), True, ())):
                 order_ok = True
+                n_ret -= 1
+    order_ok = order_ok and n_ret == 0
     ctx.ob("T/importer/map_BinOp/operand-order", order_ok, owner.module.loc(fn),
            "constructor(rec(left), rec(right))" if order_ok else
            "map_BinOp does not call the table entry with (rec(left), "
@@ -1083,6 +1087,29 @@ def check_importer(ctx, model, prop, parser=None):
                f"unary_op_map[ast.{k}] ('{sym}'): {why}",
                {"entry": ast.unparse(v)})
     ctx.floor("unary_op_map entries", len(ut), 3)
+    # every unary operator goes through the table: a path of map_UnaryOp that
+    # answers some other way ("not a < b" rewritten to "a >= b", "--x" to "x")
+    # gives that form a meaning of its own (not (a < b < c) is not
+    # a >= b >= c; not (nan < 1) is not nan >= 1)
+    owner, fn = model.require_method(f"{IAST}:ASTToPymbolic", "map_UnaryOp")
+    good = bad = 0
+    for ps in summarize(fn):
+        if ps.term != "return":
+            continue
+        rv = ps.retval
+        if isinstance(rv, tuple) and rv[0] == "call" and rv[2] == (
+                ("rec", ("attr", NODE, "operand"), True, ()),):
+            good += 1
+        else:
+            bad += 1
+    ctx.ob("T/importer/map_UnaryOp/applies-table", good > 0 and bad == 0,
+           owner.module.loc(fn),
+           "constructor(rec(operand)) on every path" if good and not bad else
+           "map_UnaryOp has a path that does not answer with the table entry "
+           "applied to rec(operand): that form of unary expression is read "
+           "differently from the operator it is written with (e.g. 'not a < b "
+           "< c' rewritten link by link is a >= b and b >= c, which is not "
+           "the negation of the chain)")
 
     # ---- comparisons ---------------------------------------------------------------
     ct, loc = table("comparison_op_map")
